@@ -342,7 +342,9 @@ func runLive(c *vrun.Case) vrun.Result {
 			opts = append(opts, iscp.WithUpstreamFlushPolicyBufferSizeOnly(64))
 			q += "/size64"
 		}
-		up, err := conn.OpenUpstream(ctx, fmt.Sprintf("live-%d", i), opts...)
+		octx, ocancel := context.WithTimeout(ctx, 30*time.Second) // released right after the open
+		up, err := conn.OpenUpstream(octx, fmt.Sprintf("live-%d", i), opts...)
+		ocancel()
 		if err != nil {
 			return vrun.Inconcl("open upstream: " + err.Error())
 		}
@@ -357,7 +359,9 @@ func runLive(c *vrun.Case) vrun.Result {
 	}
 	var downs []*downS
 	for i := 0; i < nd; i++ {
-		d, err := conn.OpenDownstream(ctx, []*message.DownstreamFilter{{SourceNodeID: fmt.Sprintf("src%d", i), DataFilters: []*message.DataFilter{{Name: "#", Type: "#"}}}}, iscp.WithDownstreamQoS(message.QoSReliable), iscp.WithDownstreamAckFlushInterval(5*time.Millisecond))
+		dctx, dcancel := context.WithTimeout(ctx, 30*time.Second) // released right after the open
+		d, err := conn.OpenDownstream(dctx, []*message.DownstreamFilter{{SourceNodeID: fmt.Sprintf("src%d", i), DataFilters: []*message.DataFilter{{Name: "#", Type: "#"}}}}, iscp.WithDownstreamQoS(message.QoSReliable), iscp.WithDownstreamAckFlushInterval(5*time.Millisecond))
+		dcancel()
 		if err != nil {
 			return vrun.Inconcl("open downstream: " + err.Error())
 		}
